@@ -28,6 +28,9 @@ EXPLANATION = (
 EXPLANATION += (
     " ADDED: C03.4 also requires every inline / crossline count that reaches a count or size field of the fresh header to come from the output geometry (the conversion window), not from the source axes. C03.5 additionally: reader-derived writers (cropper, re-blocker) emit the arrays in header-word table order (iterating the reader's stored-key list, which must hold one key per stored array - duplicates of another header word excluded - not a lazily filled memo dict whose order is the call history), take the full grid arrays (include_padding / grid reshape) rather than the mask-compacted ones, `x += pad` accumulations and companion writes in the same iteration are summed, and a padding gate on the SOURCE's version is evaluated on both outcomes against the stride of the version the OUTPUT is stamped with. C03.8: bytes 28:32 are decoded only under the 0.1.6 unit gate (or on the 2D branch) and a copied header whose version stamp is replaced also rewrites them. C03.9: the cropper's aligned upper bounds are provably within the source axis on every path (clip semantics, conditional expressions forked)."
 )
+EXPLANATION += (
+    ' C03.10: the ordering facts of the writer pipeline (rules C16.1-C16.7) are part of conformance: every block is on disk, once and in order, before the footer is appended and the patches are made.'
+)
 ASSUMPTIONS = [
     'docs/file-specification.md is the format; rows marked Unused take no part',
     'the writing library stamps a version newer than 0.2.1 (the footer-padding gate) - not derivable from the source',
